@@ -1475,6 +1475,13 @@ namespace hgraph::stdlib
             const std::size_t positional_count = ts.size();
             WiringPortRef key_boundary = key;
             key_boundary.schema = TypeRegistry::instance().dereference(key.schema);
+            // Keyword slots in NAME order, not call order: branches find their
+            // keywords by name, and the node's identity is its ordered input
+            // list - in call order switch_(k, cases, a=x, b=y) and
+            // switch_(k, cases, b=x, a=y) had equal inputs and were interned
+            // to one node although they bind x and y the other way round.
+            std::stable_sort(kwargs.begin(), kwargs.end(),
+                             [](const auto &lhs, const auto &rhs) { return lhs.first < rhs.first; });
             std::vector<std::pair<std::string, std::size_t>> named_slots;
             named_slots.reserve(kwargs.size());
             for (std::size_t i = 0; i < kwargs.size(); ++i)
